@@ -83,6 +83,12 @@ impl CBORTaggedDecodable for Envelope {
                     #[cfg(feature = "encrypt")]
                     tags::TAG_ENCRYPTED => {
                         let encrypted = EncryptedMessage::from_untagged_cbor(item.clone())?;
+                        // Only the canonical form is accepted: the message
+                        // decoder tolerates (and drops) trailing array
+                        // elements, which would not survive re-encoding.
+                        if encrypted.untagged_cbor() != *item {
+                            bail!(crate::EnvelopeError::InvalidFormat);
+                        }
                         let envelope = Self::new_with_encrypted(encrypted)?;
                         Ok(envelope)
                     },
